@@ -162,13 +162,20 @@ impl Sandbox {
     fn spawn_once(&mut self, cfg: &Config, step: &Step, cpu_s: u64) -> std::process::Output {
         let _ = std::fs::remove_file(&self.log);
         let mut cmd = Command::new(&cfg.truth_bin);
-        cmd.args(&step.argv).current_dir(&self.dir).env_clear();
+        // argv may name absolute paths inside the sandbox as "{ROOT}/..."; the pseudo-variable TRUSIM_CWD
+        // (not passed on) makes a sub-directory of the sandbox the working directory
+        let root = self.dir.to_string_lossy().into_owned();
+        let cwd = step.env.iter().find(|(k, _)| k == "TRUSIM_CWD").map(|(_, v)| self.dir.join(v)).unwrap_or_else(|| self.dir.clone());
+        let _ = std::fs::create_dir_all(&cwd);
+        cmd.args(step.argv.iter().map(|a| a.replace("{ROOT}", &root))).current_dir(&cwd).env_clear();
         cmd.env("LD_PRELOAD", &cfg.shim).env("TRUSIM_ROOT", &self.dir).env("TRUSIM_LOG", &self.log).env("TRUSIM_KEY", step.key.to_string());
         if !step.plan.is_empty() {
             cmd.env("TRUSIM_PLAN", &step.plan);
         }
         for (k, v) in &step.env {
-            cmd.env(k, v);
+            if k != "TRUSIM_CWD" {
+                cmd.env(k, v.replace("{ROOT}", &root));
+            }
         }
         cmd.stdin(Stdio::null()).stderr(Stdio::piped());
         match &step.stdout_to {
